@@ -245,6 +245,30 @@ class GroupBuild:
             self.unit_meta[unit] = dict(function=name, file=rel, clauses=cc, props=list(props), spec=spec)
         return cc
 
+    def fragment(self, unit, rel, name, impl, pattern, nth, sig, ret, contract, what, props=(), pre=''):
+        """R16: a statement-level fragment of a function that is otherwise outside the subset (I/O, closures): the nth match of
+        `pattern` inside the body of `name` is emitted as the body of a synthetic function with signature `sig` (the free
+        variables of the fragment, their types read off the enclosing function) that returns `ret` afterwards.
+        Everything else of the enclosing function is dropped."""
+        s = self.src(rel)
+        (a, kw, o, c) = s.find_fn(name, impl, 0)
+        body = s.src[o:c + 1]
+        mask = X.code_mask(body)
+        ms = [m for m in re.finditer(pattern, body) if mask[m.start()]]
+        if nth >= len(ms):
+            raise X.LostAnchor('R16: fragment #%d of %s::%s (%s) not found' % (nth, rel, name, what))
+        stmt = X.strip_comments(ms[nth].group(0))
+        fname = 'verif_fragment_%s_%d' % (name, nth)
+        text = 'fn %s(%s) -> (res: %s)\n%s\n{\n    %s\n    %s;\n    %s\n}\n' % (fname, sig[0], sig[1], contract.rstrip(), pre, stmt.strip().rstrip(';'), ret)
+        line0 = s.src[:o + ms[nth].start()].count('\n') + 1
+        self.parts.append(('fn', unit, '%s::%s fragment #%d (R16)' % (rel, name, nth), text))
+        self.listing.append('### fragment under contract: %s (%s::%s, line %d, R16)\n  - %s\n  - everything else of %s is dropped; free variables and their types: %s\n%s\n' % (
+            what, rel, name, line0, 'pattern: ' + pattern, name, sig[0], X.listing(ms[nth].group(0), text, fname)))
+        cc = count_clauses(contract)
+        if unit:
+            self.unit_meta[unit] = dict(function='%s (fragment #%d: %s)' % (name, nth, what), file=rel, clauses=cc, props=list(props), spec=None)
+        return cc
+
     def canary(self, emitted, name, stub, wrap_impl):
         """vacuity guard (DESIGN 2.4): a copy of the signature + requires whose body must FAIL to verify.
         callee canary: `let r = callee(args); assert(false)` fails iff requires /\ ensures of the assumed contract is
